@@ -22,7 +22,7 @@ META = dict(
                 "v - 2 mean(omega) = 2 mean(A) - 1 over the cards under audit, A = the oracle's reading of the manual records (phantom -> 0; "
                 "lacking the contest -> 0 with style, the assorter's non-vote value without); (c) after add_pool_contests every pooled CVR lists "
                 "every contest of its pool.",
-    bounds={"quick": {"cards": 3, "pools": "2 labels, 2 assignments x 4 pooled subsets", "assorters": "plurality, super-majority with share_to_win in {1/2, 2/3, 2/5}, IRV winner-only, IRV elimination"},
+    bounds={"quick": {"cards": 3, "pools": "2 labels, 3 assignments (one non-contiguous) x 4 pooled subsets", "assorters": "plurality, super-majority with share_to_win in {1/2, 2/3, 2/5}, IRV winner-only, IRV elimination"},
             "thorough": {"cards": 4, "pools": "2 labels, 3 assignments x 4 pooled subsets"}},
     outside=["more cards than the bound", "stratified audits (not implemented upstream)"],
     assumptions=["a phantom CVR carries no marks (the records make_phantoms creates)", "ranks present on an IRV ballot are distinct positive integers",
@@ -35,7 +35,8 @@ ASSORTERS = ["plurality", "supermajority", "irv_wo", "irv_elim"]
 
 def cells(tier):
     K = 3 if tier == "quick" else 4
-    assigns = [["P", "P", "Q", "Q"][:K], ["P", "Q", "Q", "P"][:K]] + ([["P", "P", "P", "Q"][:K]] if tier != "quick" else [])
+    assigns = [["P", "P", "Q", "Q"][:K], ["P", "Q", "Q", "P"][:K]] + ([["P", "P", "P", "Q"][:K]] if tier != "quick" else [["P", "Q", "P"]])
+    # (the last quick assignment puts the cards of one pool in non-adjacent positions of the list)
     out = []
     for a in ASSORTERS:
         for style in (True, False):
